@@ -30,7 +30,7 @@ class World(SimWorld):
 
 
 def sub_machine(col, budget, seed, tier, shard, nshards):
-    M.run(col, World, CHECKS, M.base_cfg(limits="some", handicaps=True), budget, 30 if tier == "quick" else 60, seed, tier, "trades", rule_weights={"resubmit": 1})
+    M.run(col, World, CHECKS, M.base_cfg(limits="some", handicaps=True), budget, 30 if tier == "quick" else 60, seed, tier, "trades", rule_weights={"resubmit": 1, "overlap_reset": 1})
 
 
 # ---- live world: the same recount after every operation of a generated live schedule (C11 generator) -----------
